@@ -2,7 +2,8 @@
 From Coq Require Import NArith List.
 Import ListNotations.
 From DV Require Import Base.Outcome C18.Gen C18.Model C18.Proofs C18.ProofsEnc C18.ProofsSpec
-  C18.ProofsDec64 C18.ProofsDec32 C18.ProofsApi C18.ProofsApi2 C18.ProofsConv C18.ProofsPostFix.
+  C18.ProofsDec64 C18.ProofsDec32 C18.ProofsApi C18.ProofsApi2 C18.ProofsConv C18.ProofsPostFix
+  C18.ProofsCap C18.ProofsGrammar C18.ProofsUsers.
 Local Open Scope N_scope.
 
 Theorem C18_encode_tables_are_rfc4648 :
@@ -194,3 +195,119 @@ Theorem C18_b16_errors_sticky : forall s,
   (exists e, In (Some e) (fst (b16_push_all s))) -> exists e, snd (b16_push_all s) = Err e.
 Proof. exact b16_errors_sticky. Qed.
 Print Assumptions C18_b16_errors_sticky.
+
+(* ---- well-formedness as a grammar (RFC 4648 section 4 quanta) ---- *)
+
+Theorem C18_b64_accepts_iff_grammar : forall s bs,
+  b64_decode s = Ok bs <-> wf64 s /\ bs = octets64 s.
+Proof. exact b64_accepts_iff_grammar. Qed.
+Print Assumptions C18_b64_accepts_iff_grammar.
+
+Theorem C18_b64_rejects_iff_not_grammar : forall s, (exists e, b64_decode s = Err e) <-> ~ wf64 s.
+Proof. exact b64_rejects_iff_not_grammar. Qed.
+Print Assumptions C18_b64_rejects_iff_not_grammar.
+
+Theorem C18_b32_accepts_iff_grammar : forall s bs,
+  b32_decode s = Ok bs <-> wf_unpadded 5 val32 s /\ bs = octets_unpadded 5 val32 s.
+Proof. exact b32_accepts_iff_grammar. Qed.
+Print Assumptions C18_b32_accepts_iff_grammar.
+
+Theorem C18_b16_accepts_iff_grammar : forall s bs,
+  b16_decode s = Ok bs <-> wf_unpadded 4 val16 s /\ bs = octets_unpadded 4 val16 s.
+Proof. exact b16_accepts_iff_grammar. Qed.
+Print Assumptions C18_b16_accepts_iff_grammar.
+
+(* ---- bounded octets builders (ShortBuf) ---- *)
+
+Theorem C18_cap_none_is_unbounded : forall s,
+  (b64_decode_cap None s = b64_decode s /\ b64_push_all_cap None s = b64_push_all s) /\
+  (b32_decode_cap None s = b32_decode s /\ b32_push_all_cap None s = b32_push_all s) /\
+  (b16_decode_cap None s = b16_decode s /\ b16_push_all_cap None s = b16_push_all s).
+Proof. exact cap_none_is_unbounded. Qed.
+Print Assumptions C18_cap_none_is_unbounded.
+
+Theorem C18_b32_cap_api_total_sticky : forall cap s,
+  no_panic (snd (b32_push_all_cap cap s)) /\
+  ((exists e, In (Some e) (fst (b32_push_all_cap cap s))) -> exists e, snd (b32_push_all_cap cap s) = Err e).
+Proof. exact (fun cap s => conj (b32_cap_api_total cap s) (b32_cap_errors_sticky cap s)). Qed.
+Print Assumptions C18_b32_cap_api_total_sticky.
+
+Theorem C18_b16_cap_api_total_sticky : forall cap s,
+  no_panic (snd (b16_push_all_cap cap s)) /\
+  ((exists e, In (Some e) (fst (b16_push_all_cap cap s))) -> exists e, snd (b16_push_all_cap cap s) = Err e).
+Proof. exact (fun cap s => conj (b16_cap_api_total cap s) (b16_cap_errors_sticky cap s)). Qed.
+Print Assumptions C18_b16_cap_api_total_sticky.
+
+Theorem C18_b64_cap_api_total_sticky : forall cap s,
+  no_panic (snd (b64_push_all_cap_fix cap s)) /\
+  ((exists e, In (Some e) (fst (b64_push_all_cap_fix cap s))) ->
+   exists e, snd (b64_push_all_cap_fix cap s) = Err e).
+Proof. exact (fun cap s => conj (b64_cap_api_total cap s) (b64_cap_errors_sticky cap s)). Qed.
+Print Assumptions C18_b64_cap_api_total_sticky.
+
+(* the push found in the source is the error-recording wrapper (T1), so the
+   previous theorem is about the code in /repo *)
+Theorem C18_b64_cap_is_as_coded : b64_push_sticky = true /\
+  forall cap s, b64_push_all_cap cap s = b64_push_all_cap_fix cap s.
+Proof. exact (conj eq_refl (fun _ _ => eq_refl)). Qed.
+Print Assumptions C18_b64_cap_is_as_coded.
+
+(* ---- users: IterScanner entry points, NSEC3 salt and owner hash ---- *)
+
+Theorem C18_scan_token_plain_agrees_with_decode : forall s, ~ In 92 s ->
+  same_result (b64_scan_token s) (b64_decode s) /\ same_result (b32_scan_token s) (b32_decode s) /\
+  same_result (b16_scan_token s) (b16_decode s).
+Proof. exact scan_token_plain_agrees_with_decode. Qed.
+Print Assumptions C18_scan_token_plain_agrees_with_decode.
+
+Theorem C18_scan_entry_plain_agrees_with_decode : forall toks, Forall (fun t => ~ In 92 t) toks ->
+  same_result (b64_scan_entry toks) (b64_decode (concat toks)) /\
+  same_result (b32_scan_entry toks) (b32_decode (concat toks)) /\
+  same_result (b16_scan_entry toks) (b16_decode (concat toks)).
+Proof. exact scan_entry_plain. Qed.
+Print Assumptions C18_scan_entry_plain_agrees_with_decode.
+
+Theorem C18_scan_escapes_as_coded :
+  if iter_scanner_checks_escapes
+  then forall token, snd (symbols token) = false ->
+         (forall bs, b64_scan_token token <> Ok bs) /\ (forall bs, b32_scan_token token <> Ok bs) /\
+         (forall bs, b16_scan_token token <> Ok bs) /\
+         (forall lim bs, salt_scan_with iter_scanner_checks_escapes lim token <> Ok bs) /\
+         (forall lim bs, hash_scan_with iter_scanner_checks_escapes lim token <> Ok bs)
+  else exists token, snd (symbols token) = false /\ b16_scan_token token = Ok [240; 15].
+Proof. exact (scan_escapes_sel iter_scanner_checks_escapes). Qed.
+Print Assumptions C18_scan_escapes_as_coded.
+
+Theorem C18_salt_from_str_spec : forall s bs,
+  salt_from_str s = Ok bs <->
+  (s = [45] /\ bs = []) \/ (s <> [45] /\ spec_dec16 s = Some bs /\ (length bs <= 255)%nat).
+Proof. exact salt_from_str_spec. Qed.
+Print Assumptions C18_salt_from_str_spec.
+
+Theorem C18_salt_roundtrip : forall bs, octets bs -> (length bs <= 255)%nat ->
+  exists t, salt_display bs = Ok t /\ salt_from_str t = Ok bs.
+Proof. exact salt_roundtrip. Qed.
+Print Assumptions C18_salt_roundtrip.
+
+Theorem C18_hash_roundtrip : forall bs, octets bs -> (length bs <= 255)%nat ->
+  exists t, hash_display bs = Ok t /\ hash_from_str t = Ok bs.
+Proof. exact (hash_roundtrip nsec3_hash_from_str_limited). Qed.
+Print Assumptions C18_hash_roundtrip.
+
+Theorem C18_hash_from_str_as_coded :
+  if nsec3_hash_from_str_limited
+  then forall s bs, hash_from_str s = Ok bs <-> spec_dec32 s = Some bs /\ (length bs <= 255)%nat
+  else (forall s bs, hash_from_str s = Ok bs <-> spec_dec32 s = Some bs) /\
+       exists s bs, hash_from_str s = Ok bs /\ length bs = 260%nat.
+Proof. exact (hash_from_str_sel nsec3_hash_from_str_limited). Qed.
+Print Assumptions C18_hash_from_str_as_coded.
+
+Theorem C18_nsec3_scan_limit_as_coded :
+  (if nsec3_salt_scan_limited
+   then forall token bs, salt_scan token = Ok bs -> (length bs <= 255)%nat
+   else exists token bs, salt_scan token = Ok bs /\ length bs = 256%nat) /\
+  (if nsec3_hash_scan_limited
+   then forall token bs, hash_scan token = Ok bs -> (length bs <= 255)%nat
+   else exists token bs, hash_scan token = Ok bs /\ length bs = 260%nat).
+Proof. exact (scan_limit_sel iter_scanner_checks_escapes nsec3_salt_scan_limited nsec3_hash_scan_limited). Qed.
+Print Assumptions C18_nsec3_scan_limit_as_coded.
